@@ -1059,6 +1059,7 @@ package profile
 //@   ensures miss_labels: !aftercall("profileMerger.sampleKey", has(pm.samples, callres("profileMerger.sampleKey", 0))) ==> forall k string :: (has(src.Label, k) <==> has(result.Label, k)) && (has(src.Label, k) ==> len(result.Label[k]) == len(src.Label[k]) && forall j int :: 0 <= j && j < len(src.Label[k]) ==> result.Label[k][j] == src.Label[k][j])
 //@   ensures miss_numdom: !aftercall("profileMerger.sampleKey", has(pm.samples, callres("profileMerger.sampleKey", 0))) ==> forall k string :: (has(src.NumLabel, k) <==> has(result.NumLabel, k))
 //@   ensures miss_numlen: !aftercall("profileMerger.sampleKey", has(pm.samples, callres("profileMerger.sampleKey", 0))) ==> forall k string :: has(src.NumLabel, k) ==> len(result.NumLabel[k]) == len(src.NumLabel[k]) && len(result.NumUnit[k]) == len(src.NumUnit[k])
+//@   ensures miss_noalias: !aftercall("profileMerger.sampleKey", has(pm.samples, callres("profileMerger.sampleKey", 0))) ==> (forall k string :: has(result.Label, k) ==> fresh(result.Label[k])) && (forall k string :: has(result.NumLabel, k) ==> fresh(result.NumLabel[k])) && fresh(result.Value) && fresh(result.Location)
 // (withdrawn: element-wise equality of the copied numeric label values did not discharge within 20 s; key sets and
 // lengths of values and units are proved, the values themselves are listed as not decided)
 //@   loop 1
@@ -1070,11 +1071,15 @@ package profile
 //@   loop 3
 //@     invariant s != nil && fresh(s) && s.Label != nil && fresh(s.Label) && src != nil
 //@     invariant lab_done: forall k string :: visited(k) ==> has(s.Label, k) && len(s.Label[k]) == len(src.Label[k]) && forall j int :: 0 <= j && j < len(src.Label[k]) ==> s.Label[k][j] == src.Label[k][j]
+//@     invariant lab_fresh: forall k string :: has(s.Label, k) ==> fresh(s.Label[k])
 //@     invariant lab_only: forall k string :: has(s.Label, k) ==> has(src.Label, k) && visited(k)
 //@     invariant distinct_maps: s.NumUnit != nil && s.NumLabel != nil && s.Label != s.NumUnit && fresh(s.NumUnit) && fresh(s.NumLabel)
 //@     invariant src_same: forall k string :: has(src.Label, k) == atloop(3, has(src.Label, k))
+//@     invariant num_empty: forall k string :: !has(s.NumUnit, k) && !has(s.NumLabel, k)
 //@   loop 4
 //@     invariant s != nil && fresh(s) && s.Label != nil && fresh(s.Label) && src != nil && s.NumUnit != nil && s.NumLabel != nil && s.Label != s.NumUnit && fresh(s.NumUnit) && fresh(s.NumLabel)
+//@     invariant lab_fresh: forall k string :: has(s.Label, k) ==> fresh(s.Label[k])
+//@     invariant num_fresh: forall k string :: (has(s.NumLabel, k) ==> fresh(s.NumLabel[k])) && (has(s.NumUnit, k) ==> fresh(s.NumUnit[k]))
 //@     invariant lab_all: forall k string :: (has(src.Label, k) <==> has(s.Label, k)) && (has(src.Label, k) ==> len(s.Label[k]) == len(src.Label[k]) && forall j int :: 0 <= j && j < len(src.Label[k]) ==> s.Label[k][j] == src.Label[k][j])
 //@     invariant num_done: forall k string :: visited(k) ==> has(s.NumLabel, k) && len(s.NumLabel[k]) == len(src.NumLabel[k]) && len(s.NumUnit[k]) == len(src.NumUnit[k]) && forall j int :: 0 <= j && j < len(src.NumLabel[k]) ==> s.NumLabel[k][j] == src.NumLabel[k][j]
 //@     invariant num_only: forall k string :: has(s.NumLabel, k) ==> has(src.NumLabel, k) && visited(k)
@@ -1121,6 +1126,7 @@ package profile
 // ---- C03: Merge — the per-input id translation tables are fresh for every input profile (ids of one input never
 // resolve through another input's table), and only non-zero samples are handed to mapSample ----
 //@ func Merge nosafety
+//@   callsite Merge remerge: len($arg0) == 1 && $arg0[0] == p && callres("isZeroSample#2", 0)
 //@   callsite profileMerger.mapSample tables: newer(pm.functionsByID, 1) && newer(pm.mappingsByID, 1) && newer(pm.locationsByID.sparse, 1) && newer(pm.locationsByID.dense, 1)
 //@   callsite profileMerger.mapMapping tables: newer(pm.mappingsByID, 1)
 //@   loop 1
@@ -1263,6 +1269,7 @@ package profile
 //@     invariant locsaddr: forall a uint64 :: has(locs, a) && locs[a] != nil ==> locs[a].Address == a
 //@     step one_sample: len(p.Sample) != atiter(2, len(p.Sample)) ==> len(p.Sample) == atiter(2, len(p.Sample)) + 1 && p.Sample[len(p.Sample) - 1] != nil && same_elems(p.Sample[len(p.Sample) - 1].Value, callres("parseContentionSample", 0)) && len(p.Sample[len(p.Sample) - 1].Location) == len(callres("parseContentionSample", 1))
 //@     mustcall parseContentionSample parsed: $arg0 == line when !callres("isSpaceOrComment#2", 0)
+//@     mustcall Scanner.Scan advanced: $arg0 == s when true
 //@   loop 3
 //@     invariant p != nil && locs != nil && 0 <= $i && $i <= len(addrs) && len(sloc) == $i
 //@     invariant locsaddr: forall a uint64 :: has(locs, a) && locs[a] != nil ==> locs[a].Address == a
